@@ -225,6 +225,34 @@ pub fn default_exprs() -> Vec<(&'static str, Vec<(&'static str, &'static str)>)>
         ("1.0 + 0.5", vec![("f64", "1.5f64")]),
         ("'a'", vec![("char", "'a'")]),
         ("Wrap(3)", vec![("Wrap", "Wrap(3)")]),
+        // values that only survive an exact conversion (an f32 round trip, a narrowing or a re-printed literal would change them)
+        ("16777217", vec![("f64", "16777217f64"), ("i64", "16777217i64"), ("u32", "16777217u32"), ("Wrap", "Wrap(16777217)")]),
+        ("2147483647", vec![("f64", "2147483647f64"), ("i64", "2147483647i64"), ("i128", "2147483647i128")]),
+        ("123456789", vec![("f64", "123456789f64"), ("u64", "123456789u64")]),
+        ("16777217.0", vec![("f64", "16777217f64")]),
+        ("0.1", vec![("f64", "0.1f64"), ("f32", "0.1f32")]),
+        ("1e3", vec![("f64", "1000f64"), ("f32", "1000f32")]),
+        ("-1.5", vec![("f64", "-1.5f64"), ("f32", "-1.5f32")]),
+        // other literal spellings
+        ("0xff", vec![("u8", "255u8"), ("i64", "255i64"), ("f64", "255f64"), ("Wrap", "Wrap(255)")]),
+        ("1_000", vec![("u64", "1000u64"), ("i16", "1000i16"), ("f64", "1000f64")]),
+        ("0b101", vec![("u8", "5u8"), ("u16", "5u16")]),
+        ("'\\u{1f600}'", vec![("char", "'\\u{1f600}'"), ("u32", "128512u32")]),
+        ("\"\"", vec![("&'static str", "\"\""), ("String", "String::new()")]),
+        ("r\"a\\b\"", vec![("&'static str", "\"a\\\\b\""), ("String", "String::from(\"a\\\\b\")")]),
+        ("\"q\\\"uote\"", vec![("&'static str", "\"q\\\"uote\""), ("String", "String::from(\"q\\\"uote\")")]),
+        ("b'\\n'", vec![("u8", "10u8"), ("u16", "10u16")]),
+        ("false", vec![("bool", "false")]),
+        // non-literal expressions that derive-mode syn parses: never converted
+        ("u8::MAX", vec![("u8", "255u8")]),
+        ("i64::MIN", vec![("i64", "i64::MIN")]),
+        ("7 as u64", vec![("u64", "7u64")]),
+        ("(2 + 3) * 2", vec![("u8", "10u8"), ("i64", "10i64")]),
+        ("\"ab\".len()", vec![("usize", "2usize")]),
+        ("i64::from(3u8)", vec![("i64", "3i64")]),
+        ("&7u8", vec![("&'static u8", "&7u8")]),
+        ("Wrap(3).0", vec![("i64", "3i64")]),
+        ("Wrap { 0: 5 }", vec![("Wrap", "Wrap(5)")]),
     ]
 }
 
